@@ -2,7 +2,7 @@
    Model: Deser/Model.v (exec, compile); specification: Deser/Spec.v (spec); proofs: Deser/Proofs.v. *)
 From Coq Require Import List String ZArith Bool.
 From AV Require Import Core.Json Core.Errors Deser.Model Deser.Spec Deser.Loops Deser.Proofs Deser.Examples.
-From AV Require Import Gen.Tables Small.ConMerge Small.ConMergeProofs.
+From AV Require Import Gen.Tables Small.ConMerge Small.ConMergeProofs Small.Aggregate Small.AggregateProofs.
 Import ListNotations.
 
 (* For every universe of classes / enums, every option record without coercion (coercion is C14), every type of the
@@ -51,3 +51,28 @@ Theorem C01_merged_levels_accept_the_conjunction :
   sat k (fold_left f levels b0) x = forallb (fun b => sat k b x) (b0 :: levels).
 Proof. exact merged_levels_are_the_conjunction. Qed.
 Print Assumptions C01_merged_levels_accept_the_conjunction.
+
+(* AGGREGATE FIELDS (flattened, pattern properties, additional properties).  The key dispatch of ObjectMethod.deserialize, as
+   modelled in Small/Aggregate.v, computes the documented partition for every class and every set of keys: a flattened field
+   receives its aliases present in the datum; the j-th pattern field the keys that are no property, no flattened alias,
+   match its pattern and none of the earlier ones; the additional field (or the list of unexpected properties) the rest. *)
+Theorem C01_aggregate_fields_receive_the_documented_keys : forall a keys, dispatch a keys = spec_dispatch a keys.
+Proof. exact dispatch_is_spec. Qed.
+Print Assumptions C01_aggregate_fields_receive_the_documented_keys.
+
+Theorem C01_aggregate_dispatch_loses_no_key : forall a keys k, In k keys ->
+  mem k (known a) = true \/ in_some_flat a k = true
+  \/ (exists ms, In ms (snd (fst (spec_dispatch a keys))) /\ In k ms)
+  \/ In k (snd (spec_dispatch a keys)).
+Proof. exact dispatch_total. Qed.
+Print Assumptions C01_aggregate_dispatch_loses_no_key.
+
+(* found while writing the model: before `fix: 2f36014` the known properties included the names of the aggregate fields
+   themselves, so that such a key ({'address': 1} for a flattened field `address`) was neither used nor reported *)
+Theorem C01_old_known_properties_refuted :
+  exists a own keys k,
+    In k keys /\ mem k (known a) = false /\ in_some_flat a k = false
+    /\ let '(ts, ms, rest) := dispatch (mkAgg (old_known a own) (flats a) (pats a) (has_additional a)) keys in
+       ~ In k rest /\ (forall l, In l ts -> ~ In k l) /\ (forall l, In l ms -> ~ In k l).
+Proof. exact old_all_aliases_refuted. Qed.
+Print Assumptions C01_old_known_properties_refuted.
